@@ -79,3 +79,43 @@ def check_table(rule_key, body, paths, atoms, spec, outcome, abbr=(), skip=None,
         if n not in seen_atoms:
             res.append(bad("%s|atom-untested|%s" % (rule_key, n), "%s: no path tests the condition %s = %s that the prescribed behaviour depends on" % (body.path, n, atoms[n]), loc or body.loc()))
     return res
+
+
+_VER = _re.compile("\u2032(\\d*)")
+
+
+def summarize(p, abbr=()):
+    """(guard strings, outcome string) of a path; `x'N` versions are renumbered by order of appearance."""
+    gs = []
+    for a, o in p.guards:
+        s = render(a, abbr)
+        if o is True:
+            gs.append(s)
+        elif o is False:
+            gs.append("!" + s)
+        elif isinstance(o, tuple) and o[0] in ("variant", "val"):
+            gs.append("%s=%s" % (s, o[1]))
+        elif isinstance(o, tuple) and o[0] == "char":
+            gs.append("%s='%s'" % (s, chr(o[1])))
+        elif isinstance(o, tuple) and o[0] == "variants":
+            gs.append("%s∈{%s}" % (s, ",".join(o[1])))
+        elif isinstance(o, tuple) and o[0] == "other":
+            gs.append("%s=other" % s)
+        else:
+            gs.append("%s=%s" % (s, o))
+    r = render(p.ret, abbr) if (p.end == "return" and p.ret is not None) else "<%s>" % p.end.split(":")[0]
+    order = []
+    for s in gs + [r]:
+        for m in _VER.finditer(s):
+            if m.group(1) not in order:
+                order.append(m.group(1))
+    if order:
+        def rn(m):
+            return "\u2032" * (order.index(m.group(1)) + 1)
+        gs = [_VER.sub(rn, s) for s in gs]
+        r = _VER.sub(rn, r)
+    return gs, r
+
+
+def strip_ver(s):
+    return _VER.sub("", s)
